@@ -12,20 +12,24 @@ cd $wt || exit 2
 git diff -- . ':!seed' ':!BRIEF.md' > $work/actual.diff
 if diff -q <(grep -v '^index ' $work/actual.diff) <(grep -v '^index ' seed/patch.diff) > /dev/null; then echo "[confirm $id] patch.diff == worktree change ($(grep -c '^[+-][^+-]' seed/patch.diff) changed lines; files: $(git diff --stat -- . ':!seed' ':!BRIEF.md' | head -n -1 | awk '{print $1}' | tr '\n' ' '))"; else echo "[confirm $id] WARNING patch.diff differs from the worktree change"; fi
 crates=$(git diff --name-only -- . ':!seed' ':!BRIEF.md' | cut -d/ -f1 | sort -u)
-suite() { for c in $crates; do p=$(grep -m1 '^name' $c/Cargo.toml | sed 's/.*"\(.*\)"/\1/'); cargo test --offline -j $J -p $p --no-fail-fast --target-dir $work/target 2>&1 | grep -E '^test result|^test .* FAILED|could not compile' | sed 's/; finished in.*//' | sort | tr '\n' ';'; done; }
+suite() { for c in $crates; do (cd $c && cargo test --offline -j $J --no-fail-fast --target-dir $work/target 2>&1) | grep -E '^test result|^test .* FAILED|could not compile' | sed 's/; finished in.*//' | sort | tr '\n' ';'; done; }
 demo() {
-  if [ -f seed/demo/main.rs ]; then
-    cp seed/demo/*.rs $work/demo_crate/src/ 2>/dev/null
-    (cd $work/demo_crate && timeout 900 cargo run --offline -j $J --bin seed-demo --target-dir $work/target > $work/demo.out 2>&1; echo "rc=$?")
-  else
-    t=$(ls seed/demo/*.rs | head -1); n=$(basename $t .rs)
-    p=$(grep -ohE -- '-p +dmntk[-a-z]*' seed/demo/RUN.md | head -1 | awk '{print $2}')
-    c=$(grep -l "^name = \"$p\"" */Cargo.toml | head -1 | cut -d/ -f1)
+  mainrs=$(find seed/demo -name main.rs | head -1)
+  testrs=$(ls seed/demo/*.rs 2>/dev/null | grep -v 'main.rs$' | head -1)
+  if [ -n "$mainrs" ] && [ -z "$testrs" ]; then
+    cp $mainrs $work/demo_crate/src/main.rs
+    (cd $work/demo_crate && timeout 900 cargo run --offline -j $J --target-dir $work/target > $work/demo.out 2>&1; echo "rc=$?")
+  elif [ -n "$testrs" ]; then
+    n=$(basename $testrs .rs)
+    c=$(grep -ohE '[a-z-]+/tests' seed/demo/RUN.md | head -1 | cut -d/ -f1)
+    [ -d "$c" ] || c=$(echo $crates | awk '{print $NF}')
     had=0; [ -d $c/tests ] && had=1
-    mkdir -p $c/tests; cp seed/demo/*.rs $c/tests/
-    (timeout 1500 cargo test --offline -j $J -p $p --test $n --target-dir $work/target > $work/demo.out 2>&1; echo "rc=$?")
-    for f in seed/demo/*.rs; do rm -f $c/tests/$(basename $f); done
+    mkdir -p $c/tests; cp $testrs $c/tests/
+    (cd $c && timeout 1500 cargo test --offline -j $J --test $n --target-dir $work/target > $work/demo.out 2>&1; echo "rc=$?")
+    rm -f $c/tests/$n.rs
     [ $had = 0 ] && rmdir $c/tests 2>/dev/null
+  else
+    echo "rc=nodemo" ; : > $work/demo.out
   fi
 }
 with_s=$(suite); with_d=$(demo); cp $work/demo.out $work/demo_with.out
